@@ -256,8 +256,21 @@ Fixpoint set_value_at (k : nat) (v : str) (l : list attr) : list attr :=
 Definition mk_attr (qn v : str) : attr := let '(p, n) := split_prefix qn in mkA p n v.
 
 (* the data-only edits, as functions of the chain of the edited element *)
+(* Element.set(name, value): an UNPREFIXED name designates the attribute in no
+   namespace -- the first attribute without prefix and with that local name,
+   never a prefixed one with the same local name (xsi:type vs type; repaired in
+   6bfb6fa); a prefixed name goes through getAttribute, i.e. by local name and
+   resolved namespace.  No such attribute: a new one is appended. *)
+Definition set_target (qn : str) (ch : list ndata) (d : ndata) : option nat :=
+  match split_prefix qn with
+  | (None, n) => find_index (fun a => match a_prefix a with
+                                      | None => str_eqb (a_name a) n
+                                      | Some _ => false
+                                      end) (d_attrs d)
+  | (Some _, _) => get_attr_chain qn None ch
+  end.
 Definition d_set (qn v : str) (ch : list ndata) (d : ndata) : ndata :=
-  match get_attr_chain qn None ch with
+  match set_target qn ch d with
   | None => dw_attrs d (d_attrs d ++ [mk_attr qn v])
   | Some k => dw_attrs d (set_value_at k v (d_attrs d))
   end.
@@ -858,6 +871,8 @@ Definition ref_step (rs : rstate) (o : op) : option (rstate * result) :=
     end
   | OPrune x => if live f x then Some (mkR (sub_f f x prune_t) n, RNone) else None
   | OAddAttr x qn v => ret (ref_data f x (fun d => dw_attrs d (d_attrs d ++ [mk_attr qn v]))) RNone
+  (* set: the attribute designated by the name (set_target: unprefixed = no
+     namespace) gets the value, or a new attribute is appended; nothing else moves *)
   | OSet x qn v => ret (ref_data f x (d_set qn v (rchain f x))) RNone
   | OUnset x qn =>
     match get_attr_chain qn None (rchain f x) with
